@@ -21,11 +21,22 @@
   Contract: `networkx.floyd_warshall_numpy` returns shortest-path lengths (`inf` when there
   is no path).  The model computes them by `n-1` rounds of edge relaxation towards each
   target (`distTo`), which is what `Rsa.Props.C17.geodesic_shortest_path` is proved about.
+  Leaves regenerated from the source text on every run (`Rsa.Gen.C17`, see harness/leaves/C17.py)
+  and *called* here: `posClip`, `sqrtArg` (the `d[d < 0] = 0` of positive / sqrt), `minmaxEntry`,
+  `geotopEntry` (order and operators of the clipping), `gtQa` / `gtQb` (the quantile level of each
+  threshold), `geoKeep` (edge filter `mat[j, k] != 1`), every string constant of the measure names
+  (transported as natural numbers, `strOfCode`), `rankNanPolicy` (`nan_policy='omit'`),
+  `positiveKeepsName`, `descrPass`.
+  NaN / degenerate behaviour of the transforms that do not support NaN is modelled as coded:
+  `minmaxNanT` (an RDM with a NaN becomes all-NaN), `geotopNanStack` (one NaN anywhere makes both
+  thresholds NaN: the whole stack becomes NaN), `geodesicStack` (`none` = the call raises
+  `ValueError` from `squareform`: some RDM is constant or has a NaN).
   No Mathlib here.
 -/
 import Rsa.Core.Num
 import Rsa.Core.Tri
 import Rsa.Core.Compare
+import Rsa.Gen.C17
 
 namespace Rsa.Transform
 
@@ -74,22 +85,38 @@ def rankList (m : RankMethod) (x : List α) : List α :=
 def rankT (m : RankMethod) (v : List (Option α)) : List (Option α) :=
   scatter v (rankList m (present v))
 
+/-- the three values of scipy's `nan_policy`, by the string the code passes -/
+def codeOmit : Nat := 1869441396              -- "omit"
+def codePropagate : Nat := 2074281269261857027173 -- "propagate"
+
+/-- `rank_transform` for one RDM with the `nan_policy` the source text passes to `rankdata`
+    (leaf `rankNanPolicy`): 'omit' ranks among the non-missing entries, 'propagate' returns NaN
+    everywhere as soon as one entry is missing; anything else ('raise') has no result. -/
+def rankTCoded (m : RankMethod) (v : List (Option α)) : List (Option α) :=
+  if Rsa.Gen.C17.rankNanPolicy = codeOmit then rankT m v
+  else if Rsa.Gen.C17.rankNanPolicy = codePropagate then
+    (if v.all Option.isSome then rankT m v else v.map (fun _ => none))
+  else v.map (fun _ => none)
+
 end ranks
 
 /-! ## 2. element-wise transforms -/
 
 section pointwise
-variable {α : Type} [Zero α] [LT α] [DecidableLT α]
 
-/-- `d[d < 0] = 0` -/
-def clip0 (a : α) : α := if a < 0 then 0 else a
+/-- `d[d < 0] = 0` (specification form; the model calls the leaves `posClip` / `sqrtArg`) -/
+def clip0 {α : Type} [Zero α] [LT α] [DecidableLT α] (a : α) : α := if a < 0 then 0 else a
 
-/-- `positive_transform` for one RDM (NaN < 0 is false: NaN stays) -/
-def positiveT (v : List (Option α)) : List (Option α) := v.map (Option.map clip0)
+variable {α : Type} [Add α] [Sub α] [Mul α] [Div α] [Neg α] [Zero α] [One α] [NatCast α]
+  [LT α] [DecidableLT α] [LE α] [DecidableLE α] [Max α] [Min α]
 
-/-- `sqrt_transform` for one RDM -/
+/-- `positive_transform` for one RDM (NaN < 0 is false: NaN stays); the masked assignment is the
+    leaf `posClip` -/
+def positiveT (v : List (Option α)) : List (Option α) := v.map (Option.map Rsa.Gen.C17.posClip)
+
+/-- `sqrt_transform` for one RDM: `np.sqrt` of the leaf `sqrtArg` (= the clipped entry) -/
 def sqrtT [HasSqrt α] (v : List (Option α)) : List (Option α) :=
-  v.map (Option.map (fun a => HasSqrt.sqrt (clip0 a)))
+  v.map (Option.map (fun a => HasSqrt.sqrt (Rsa.Gen.C17.sqrtArg a)))
 
 end pointwise
 
@@ -110,28 +137,44 @@ def minL : List α → Option α
   | [] => none
   | a :: t => some (t.foldl (fun m b => if b < m then b else m) a)
 
-variable [Sub α] [Div α]
+end minmax
 
-/-- `minmax_transform` for one RDM; `none` = the 0/0 of a constant (or empty) RDM -/
+section minmax2
+variable {α : Type} [Add α] [Sub α] [Mul α] [Div α] [Neg α] [Zero α] [One α] [NatCast α]
+  [LT α] [DecidableLT α] [LE α] [DecidableLE α] [Max α] [Min α]
+
+/-- `minmax_transform` for one RDM; `none` = the 0/0 of a constant (or empty) RDM; the entry
+    formula is the leaf `minmaxEntry` = `(x - d_min) / (d_max - d_min)` -/
 def minmaxT (v : List α) : Option (List α) :=
   match minL v, maxL v with
-  | some mn, some mx => if mn < mx then some (v.map (fun x => (x - mn) / (mx - mn))) else none
+  | some mn, some mx =>
+    if mn < mx then some (v.map (fun x => Rsa.Gen.C17.minmaxEntry x mn mx)) else none
   | _, _ => none
 
-end minmax
+/-- `minmax_transform` on an RDM that may contain NaN (not supported, modelled as coded):
+    `max()` / `min()` of a row with a NaN are NaN, so every entry of that RDM becomes NaN; a
+    NaN-free RDM is mapped as `minmaxT` says (all-NaN when constant) -/
+def minmaxNanT (v : List (Option α)) : List (Option α) :=
+  if v.all Option.isSome then
+    match minmaxT (present v) with
+    | some r => r.map some
+    | none => v.map (fun _ => none)
+  else v.map (fun _ => none)
+
+end minmax2
 
 /-! ## 4. geo-topological transform -/
 
 section geotop
-variable {α : Type} [Add α] [Sub α] [Mul α] [Div α] [Zero α] [One α] [NatCast α]
-  [LT α] [DecidableLT α] [LE α] [DecidableLE α]
+variable {α : Type} [Add α] [Sub α] [Mul α] [Div α] [Neg α] [Zero α] [One α] [NatCast α]
+  [LT α] [DecidableLT α] [LE α] [DecidableLE α] [Max α] [Min α]
 
-/-- the clipped linear map between the thresholds; `none` = 0/0 when the thresholds
-    coincide with the value -/
+/-- the new entry of `geotopological_transform` given the two thresholds: the value is the leaf
+    `geotopEntry` (the code's `(d - lo)/(hi - lo)` overwritten by 0 below `lo`, then by 1 above
+    `hi`); `none` = NaN, the 0/0 of an entry that is not clipped while the thresholds coincide
+    (IEEE semantics of the division, written by hand: clipped, or a non-zero denominator) -/
 def geotopVal (lo hi a : α) : Option α :=
-  if hi < a then some 1
-  else if a < lo then some 0
-  else if lo < hi then some ((a - lo) / (hi - lo)) else none
+  if (hi < a ∨ a < lo) ∨ (lo < hi ∨ hi < lo) then some (Rsa.Gen.C17.geotopEntry a lo hi) else none
 
 /-- `geotopological_transform` for one RDM given the two thresholds -/
 def geotopT (lo hi : α) (v : List α) : List (Option α) := v.map (geotopVal lo hi)
@@ -152,9 +195,16 @@ def sortAsc (l : List α) : List α := l.mergeSort (fun a b => !decide (b < a))
 /-- the whole stack: thresholds are the `low` / `up` quantiles of all entries of all RDMs -/
 def geotopStack (low up : α) (vs : List (List α)) : α × α × List (List (Option α)) :=
   let s := sortAsc vs.flatten
-  let lo := quantileLin s low
-  let hi := quantileLin s up
+  let lo := quantileLin s (Rsa.Gen.C17.gtQa low up)
+  let hi := quantileLin s (Rsa.Gen.C17.gtQb low up)
   (lo, hi, vs.map (geotopT lo hi))
+
+/-- `geotopological_transform` on a stack that may contain NaN (not supported, modelled as
+    coded): `np.quantile` of an array with a NaN is NaN, both thresholds are NaN, no entry is
+    clipped and `(d - NaN)/(NaN - NaN)` is NaN — every entry of every RDM becomes NaN -/
+def geotopNanStack (low up : α) (vs : List (List (Option α))) : List (List (Option α)) :=
+  if vs.all (fun v => v.all Option.isSome) then (geotopStack low up (vs.map present)).2.2
+  else vs.map (fun v => v.map (fun _ => none))
 
 end geotop
 
@@ -203,16 +253,18 @@ def walkLen (w : Nat → Nat → Option α) : List Nat → α
   | a :: b :: rest => (w a b).getD 0 + walkLen w (b :: rest)
   | _ => 0
 
-variable [One α]
+end geodesic
 
-/-- the graph of `geodesic_transform`: edge `{i,j}` with its min-max weight unless that
-    weight is 1 (`if mat[j, k] != 1`) -/
+section geodesic2
+variable {α : Type} [Add α] [Sub α] [Mul α] [Div α] [Neg α] [Zero α] [One α] [NatCast α]
+  [LT α] [DecidableLT α] [LE α] [DecidableLE α] [Max α] [Min α]
+
+/-- the graph of `geodesic_transform`: edge `{i,j}` with its min-max weight unless the edge
+    filter of the source (`if mat[j, k] != 1`, leaf `geoKeep`) drops it -/
 def geoWeights (n : Nat) (mm : List α) : Nat → Nat → Option α := fun i j =>
   match vecToMat n none none (mm.map some) i j with
-  | some x => if x < 1 ∨ 1 < x then some x else none
+  | some x => if Rsa.Gen.C17.geoKeep x = 1 then some x else none
   | none => none
-
-variable [Sub α] [Div α]
 
 /-- `geodesic_transform` for one RDM over `n` conditions; outer `none` = constant RDM
     (NaN everywhere), inner `none` = `inf` (the two conditions are not connected) -/
@@ -224,7 +276,26 @@ def geodesicT (n : Nat) (v : List α) : Option (List (Option α)) :=
     let cols := (List.range n).map (fun j => distTo n w j)
     some ((pairs n).map (fun p => ((cols.getD p.2 []).getD p.1 none)))
 
-end geodesic
+/-- all entries present, or nothing -/
+def allSome {β : Type} : List (Option β) → Option (List β)
+  | [] => some []
+  | none :: _ => none
+  | some a :: t => (allSome t).map (a :: ·)
+
+/-- one RDM of the stack: `none` = its shortest-path matrix is NaN (a NaN entry or a constant RDM) -/
+def geodesicRow (n : Nat) (v : List (Option α)) : Option (List (Option α)) :=
+  match allSome v with
+  | some x => geodesicT n x
+  | none => none
+
+/-- the whole call `geodesic_transform(rdms)` on a stack that may contain NaN / constant RDMs
+    (modelled as coded): the min-max of such an RDM is all-NaN, its shortest-path matrix is NaN
+    and `squareform` rejects it ("must be symmetric") — the call raises `ValueError` for the
+    whole stack (`none`); otherwise every RDM is transformed by `geodesicT` -/
+def geodesicStack (n : Nat) (vs : List (List (Option α))) : Option (List (List (Option α))) :=
+  allSome (vs.map (geodesicRow n))
+
+end geodesic2
 
 /-! ## 6. the RDMs object: measure name and descriptors -/
 
@@ -237,26 +308,39 @@ structure RDMs (V D R P : Type) where
   rdmDescr : R
   patDescr : P
 
+/-- string constants of the source travel as natural numbers (big-endian ASCII bytes) -/
+def decodeAux : Nat → Nat → List Char → List Char
+  | 0, _, acc => acc
+  | f + 1, n, acc => if n = 0 then acc else decodeAux f (n / 256) (Char.ofNat (n % 256) :: acc)
+
+def strOfCode (n : Nat) : String := String.ofList (decodeAux 64 n [])
+
 def hasInfix (pat : List Char) : List Char → Bool
   | [] => pat.isEmpty
   | c :: t => pat.isPrefixOf (c :: t) || hasInfix pat t
 
+/-- Python's `str.strip()` (white space at both ends) -/
+def stripStr (s : String) : String :=
+  String.ofList (((s.toList.dropWhile Char.isWhitespace).reverse.dropWhile Char.isWhitespace).reverse)
+
 /-- `measure = m or ''; if '(ranks)' not in measure: measure = (measure + ' (ranks)').strip()` -/
 def rankName (m : Option String) : String :=
   let s := m.getD ""
-  if hasInfix "(ranks)".toList s.toList then s else (s ++ " (ranks)").trimAscii.toString
+  if hasInfix (strOfCode Rsa.Gen.C17.rankMarker).toList s.toList then s
+  else stripStr (s ++ strOfCode Rsa.Gen.C17.rankSuffix)
 
 /-- the measure name after `sqrt_transform` (the missing blank after "sqrt of" is the code's) -/
 def sqrtName : Option String → String
-  | none => "sqrt of unknown measure"
+  | none => strOfCode Rsa.Gen.C17.sqrtNone
   | some s =>
-    if s = "squared euclidean" then "euclidean"
-    else if s = "squared mahalanobis" then "mahalanobis"
-    else "sqrt of" ++ s
+    if s = strOfCode Rsa.Gen.C17.sqrtFrom0 then strOfCode Rsa.Gen.C17.sqrtTo0
+    else if s = strOfCode Rsa.Gen.C17.sqrtFrom1 then strOfCode Rsa.Gen.C17.sqrtTo1
+    else strOfCode Rsa.Gen.C17.sqrtPrefix ++ s
 
-def prefixName (pre : String) : Option String → String
-  | none => pre ++ "unknown measure"
-  | some s => pre ++ s
+/-- `if m is None: <unknown> else: <prefix> + m` with the two constants of the source -/
+def prefixName (unknown pre : Nat) : Option String → String
+  | none => strOfCode unknown
+  | some s => strOfCode pre ++ s
 
 inductive Kind where
   | rank | sqrt | positive | custom | minmax | geotop | geodesic
@@ -266,11 +350,19 @@ inductive Kind where
 def newMeasure : Kind → Option String → Option String
   | .rank, m => some (rankName m)
   | .sqrt, m => some (sqrtName m)
-  | .positive, m => m
-  | .custom, m => some (prefixName "transformed " m)
-  | .minmax, m => some (prefixName "minmax transformed " m)
-  | .geotop, m => some (prefixName "geo-topological transformed " m)
-  | .geodesic, m => some (prefixName "geodesic transformed " m)
+  | .positive, m => if Rsa.Gen.C17.positiveKeepsName = 1 then m else none
+  | .custom, m => some (prefixName Rsa.Gen.C17.customNone Rsa.Gen.C17.customPrefix m)
+  | .minmax, m => some (prefixName Rsa.Gen.C17.minmaxNone Rsa.Gen.C17.minmaxPrefix m)
+  | .geotop, m => some (prefixName Rsa.Gen.C17.geotopNone Rsa.Gen.C17.geotopPrefix m)
+  | .geodesic, m => some (prefixName Rsa.Gen.C17.geodesicNone Rsa.Gen.C17.geodesicPrefix m)
+
+def Kind.code : Kind → Nat
+  | .rank => 0 | .sqrt => 1 | .positive => 2 | .custom => 3 | .minmax => 4 | .geotop => 5
+  | .geodesic => 6
+
+/-- does the `RDMs(...)` call of this transform in the source text hand over the new array and
+    the three descriptor dicts of the source (leaf `descrPass`)? -/
+def passesDescriptors (k : Kind) : Bool := Rsa.Gen.C17.descrPass k.code == 1
 
 /-- every transform builds `RDMs(new vectors, new measure name, deep copies of the three
     descriptor dicts of the source)` -/
